@@ -63,3 +63,14 @@ CLAIMED['C20'] = dict(
     note=('Trusted: pygments RegexLexer driver loop, bygroups/using/include, and that JsonLexer/DiffLexer are lossless. '
           'Absence of Error tokens from those third-party sub-lexers is not decided.'),
     technique='custom lint over the regex ASTs of the lexer rule table + DFA inclusion checks')
+
+CLAIMED['C19'] = dict(
+    category='other',
+    text=('Typestate + structural rules over the object model: every settable attribute of every section class is assigned '
+          'an abstract caller value on a freshly built tree and each store must be dominated by the declared type (and '
+          'choice) guard with no raise source after a store; the constructor hands every keyword to setattr or raises; '
+          '__slots__ closure of the hierarchy; descriptor completeness; on every path where __eq__ may return true all '
+          'state slots of both operands were compared; fields the DOM writer reads are compared by __eq__.'),
+    note=('Decides that no field can differ unseen and that assignment validates before storing; does not prove == on '
+          'concrete values. Trusted: descriptor protocol / __slots__ / dict equality of CPython.'),
+    technique='typestate (validate-before-store) via abstract interpretation + __slots__/descriptor table lints + read-set analysis of __eq__')
